@@ -262,14 +262,29 @@ def numeric_confirm(unit, rng, first_env=None, points=3, extra_envs=()):
     bad = []
     tried = 0
     envs = [first_env] if first_env is not None else []
+    near = 0
+    if first_env is not None:
+        # independent second opinions near the failing point (narrow preconditions make uniformly
+        # random points fall outside the domain): the same point perturbed by 1 %, 5 %, 20 %
+        for rel in (0.01, 0.05, 0.2):
+            envs.append(LazyAssignment(rng, {k: (v * (1 + rel * (2 * rng.random() - 1)) if isinstance(v, float) else v)
+                                             for k, v in dict(first_env).items()}))
     envs.extend(LazyAssignment(rng, e) for e in extra_envs if e is not None)
-    while tried < points + 4 + len(extra_envs) and len(bad) < 2:
+    extra_n = (3 if first_env is not None else 0) + len(extra_envs)
+    near = 3 if first_env is not None else 0
+    tol = max(1e-6, float(unit.opts.get('float_tol', 0) or 0))
+    while tried < points + 4 + extra_n and len(bad) < 2:
         tried += 1
+        is_neighbour = first_env is not None and 1 < tried <= 1 + near
         env = envs.pop(0) if envs else LazyAssignment(rng)
-        fctx, st = run_float(unit, env, {'float_tol': 1e-6})
+        fctx, st = run_float(unit, env, {'float_tol': tol})
         if fctx is None:
             continue
         if fctx.float_failures:
+            if is_neighbour and not any(_gross_failure(f) for f in fctx.float_failures):
+                # a nearby point is no independent evidence for a discrepancy at rounding /
+                # conditioning level (finite-difference oracles near the edge of a domain)
+                continue
             bad.append((dict(env), list(fctx.float_failures)))
         elif first_env is not None and not bad:
             return None
@@ -485,6 +500,23 @@ def check_definedness(unit, ctx, res, rng):
         res['definedness_benign'] = res.get('definedness_benign', 0) + 1
 
 
+def _gross_failure(f):
+    """exception, failed structural fact, non-finite value, or a relative discrepancy > 1e-3"""
+    label, text = f[0], str(f[1])
+    if label == 'exception' or 'fact false' in text or 'shape' in text or 'nan' in text or 'inf' in text:
+        return True
+    import re
+    m = re.search(r'got (.+?) expected (.+?)$', text.strip())
+    if not m:
+        return True
+    try:
+        g = complex(m.group(1).strip())
+        e = complex(m.group(2).strip())
+    except ValueError:
+        return True
+    return abs(g - e) > 1e-3 * max(1.0, abs(e))
+
+
 def _nonfinite_failure(f):
     label, text = f[0], str(f[1])
     if label == 'exception':
@@ -543,12 +575,21 @@ def validate_path(unit, ctx, res, rng):
         res['validation_skipped'] += 1
         return
     # the float run must agree with its own oracle too (cheap concrete test)
+    if fctx.float_failures:
+        res['float_oracle_failures'].extend(
+            '%s: %s %s' % (unit.name, f[0], f[1]) for f in fctx.float_failures[:3])
+        res['float_fail_points'].append((env, [list(f) for f in fctx.float_failures[:5]]))
     nodes = []
     for label, l, r in ctx.obligations:
         nodes.append(l)
     try:
         if unit.opts.get('exact_eval'):
-            val = {k: float(v) for k, v in E.evaluate(nodes, env, exact='hybrid').items()}
+            val = {}
+            for k, v in E.evaluate(nodes, env, exact='hybrid').items():
+                try:
+                    val[k] = float(v)
+                except OverflowError:
+                    val[k] = float('inf')
         else:
             val = E.evaluate(nodes, env)
     except (ValueError, ZeroDivisionError, OverflowError, KeyError) as e:
@@ -580,10 +621,6 @@ def validate_path(unit, ctx, res, rng):
     res['validated_values'] += n
     if n:
         res['validated_traces'] += 1
-    if fctx.float_failures:
-        res['float_oracle_failures'].extend(
-            '%s: %s %s' % (unit.name, f[0], f[1]) for f in fctx.float_failures[:3])
-        res['float_fail_points'].append((env, [list(f) for f in fctx.float_failures[:5]]))
 
 
 def new_result(unit):
